@@ -579,6 +579,7 @@ def make_spec(pid, title_rule):
         "assumptions": ["atomicity at the granularity of processUnconfirmedTx / ProcessBlock / one delay-check iteration for the THEOREMS (the tx repository lock is held across ProcessBlock, the tx state lock across a delay-check iteration and its sending); the interleavings the code must exclude by those locks are replayed on the real code with pause points in the harness (race_delay: conflict between the delay check's read and write; race_send: conflict while the safe update is being sent; race_block_tx: the tx thread handles the tx message of a tx first seen in a block while ProcessBlock is in the middle of it); other interleavings are not explored",
                         "reorganisations: the trusted headers handler reverts the chain to a held block, then the competing block is processed (op reorg, driven through the real handlers.HeadersHandler); histories are those of flow_valid (TxFlowSpec.v): a txid has one body and relevance, a block id one parent / validity / tx list, block txs pairwise disjoint, and (following the run of the model) a block the node accepts holds no transaction that is confirmed in the chain it extends",
                         "node.load re-enters the stored transactions of the unconfirmed set into the mempool in the iteration order of a Go map; that order only decides the order of the notifications within a later step, the harness normalises it to ascending txid (what the model does) through the real MemPool methods",
+                        "what survives a restart of the vouching: the stored per-tx flag (set when the tx itself came from the trusted peer or was submitted locally) does; the trusted peer's ANNOUNCEMENT of a tx that an untrusted peer delivered marks only the mempool entry, which is not stored (TxRepository.MarkTrusted has no caller): after a restart such a tx is reported safe only once the trusted peer announces or sends it again. Model and monitor say exactly that (m_vnow / m_vpersist); read strictly, C07's 'reported safe within a bounded time' and C11's 'trusted flags' could ask for more - recorded here as the reading adopted, reported by two round-8 seeders as an observation",
                         "wall-clock period of the delay checker (100 ms) is a runtime fact"],
         "rule": (title_rule + "; + reorganisations through the real headers handler (fork below the tip, also refused competing blocks, unknown parent, held / tip headers): confirm -> orphan -> announce again (every source) -> delay check / conflict / confirmation on the new branch / restart in between, deeper forks, second reorganisation") if title_rule else title_rule,
         "accept_failure": accept,
